@@ -721,3 +721,19 @@ def rename_all_locals(root: str) -> None:
 
 
 V("V200", "every local variable of every function renamed (<name>_rn)", transform="rename_all_locals")
+
+
+def rename_private_functions(root: str) -> None:
+    """a maintainer renames private functions (and one public helper) consistently in the whole package"""
+    import re as _re
+    ren = {"_expand_one_node": "_expand_single_node", "make_heuristic_retained_set": "initial_retained_set",
+           "_update_node_depth": "_raise_depth", "_ensure_edge": "_link", "compute_attractor_candidates": "attractor_candidate_states",
+           "_create_clingo_constraints": "_trap_space_program"}
+    for f in Path(root, "biobalm").rglob("*.py"):
+        s = f.read_text()
+        for a, b in ren.items():
+            s = _re.sub(rf"\b{a}\b", b, s)
+        f.write_text(s)
+
+
+V("V201", "six functions renamed consistently in the whole package (anchors of many rules)", transform="rename_private_functions")
